@@ -957,6 +957,12 @@ func (rule *RuleExpression) checkMatrix(m *Matrix) *ObjectType {
 				continue
 			}
 			if merged, ok := o.Merge(ty).(*ObjectType); ok {
+				if ExprType(merged) == ty {
+					// Merge may return its argument as is. The object is modified below so copy it
+					// not to modify the type of the expression (e.g. type of github.event which is
+					// shared globally)
+					merged = merged.DeepCopy().(*ObjectType)
+				}
 				o = merged
 			} else {
 				o.Loose()
